@@ -409,6 +409,42 @@ def source_literals(repo=None):
     return ints, strs
 
 
+def source_const_values(repo=None):
+    """values of the constant sub-expressions of the crate's non-test sources (named constants and arithmetic over literals and
+    constants, e.g. `1023 - 6 - Self::FIXED_LENGTH`), folded with the parser of py/rs2v; a source outside its subset yields
+    what could be parsed"""
+    out = set()
+    try:
+        sys.path.insert(0, os.path.join(VERIF, 'py'))
+        from rs2v import build as _b, vec as _v
+        crate = _b.load_crate(repo or REPO)
+        tr = _v.VTr(crate, {})
+
+        def walk(a, impl):
+            if isinstance(a, tuple):
+                if a and a[0] in ('bin', 'path', 'paren', 'cast'):
+                    try:
+                        v = tr.const_int(a, impl)
+                    except Exception:
+                        v = None
+                    if isinstance(v, int) and 0 <= v < 2 ** 64:
+                        out.add(v)
+                        if a[0] != 'path':
+                            return
+                for x in a:
+                    walk(x, impl)
+            elif isinstance(a, list):
+                for x in a:
+                    walk(x, impl)
+        for (impl, name), (ty, e) in crate['consts'].items():
+            walk(e, impl)
+        for (impl, name), fn in crate['fns'].items():
+            walk(fn[4], impl)
+    except Exception:
+        pass
+    return out
+
+
 def new_literals():
     """literals of the current source that the validated tree did not contain -> (ints, byte strings)"""
     try:
@@ -419,6 +455,9 @@ def new_literals():
     if not bi:
         return [], []
     ints, strs = source_literals()
+    bc = set(base.get('const_values', []))
+    if bc:
+        ints = ints | (source_const_values() - bc)
     ni = sorted(x for x in ints - bi if x < 2 ** 64)
     ns = []
     for s in sorted(strs - bs):
